@@ -126,7 +126,7 @@ OBS.update({
     "symbolmap_rollback_recycled_slot": dict(kind="known", bound="1 history", functions=["SymbolMap::roll_back", "SymbolMap::add"],
                                              contract="same, when the failed compilation consumed a recycled slot"),
     "freelist_generation_contract": dict(kind="proof", functions=["FreeList::increment_generation", "FreeList::should_collect", "FreeList::shadowed_count"],
-                                         contract="epoch in 1..=4 and threshold == 100*2^(epoch-1) is invariant; no overflow"),
+                                         contract="epoch in 1..=4 and threshold == 100*2^(epoch-1) is invariant and cycles 100/200/400/800: the threshold that triggers reclamation of shadowed globals stays bounded; no overflow"),
     "visit_closure_one_instruction": dict(kind="proof", functions=["GlobalSlotRecycler::visit_closure", "u24::to_usize"],
                                           contract="for every opcode x every 24-bit payload x header None/Some(op): if the instruction the closure will execute uses its payload as a global index, that slot is removed from the candidate set; otherwise it stays; captured closures are queued"),
     "visit_closure_three_instructions": dict(kind="bounded", bound="3 instructions, first one possibly JIT-trampolined", functions=["GlobalSlotRecycler::visit_closure"],
@@ -141,12 +141,16 @@ OBS.update({
 })
 
 
-def run_unit(scratch, tier):
+def run_for(scratch, tier, prop):
+    return run_unit(scratch, tier, only=({"freelist_generation_contract"} if prop == "C19" else None))
+
+
+def run_unit(scratch, tier, only=None):
     crate, meta = build(scratch)
     p = os.path.join(crate, "src/harness_map.rs")
     write(p, read(p) + "\n#[kani::proof]\n#[kani::unwind(6)]\nfn canary_must_fail() {\n    let mut m = SymbolMap::new();\n    let r = m.add(&InternedString(0));\n    assert!(r != 0, \"canary: must be reported as failing\");\n}\n")
     specs = [dict(name=n, kind=o["kind"], contract=o["contract"], functions=o["functions"], bound=o.get("bound")) for n, o in OBS.items()
-             if tier == "thorough" or o.get("tier", "quick") == "quick"]
+             if (tier == "thorough" or o.get("tier", "quick") == "quick") and (only is None or n in only)]
     specs.append(dict(name="canary_must_fail", kind="canary", contract="assert that must fail"))
     obs, cmd, out = kani.run_harnesses(crate, specs, NAME, "glob", jobs=10, timeout=3000, harness_timeout=("25m" if tier == "thorough" else "10m"),
                                        extra_flags=["--no-assertion-reach-checks"])
